@@ -1470,6 +1470,11 @@ pub struct AggregationState {
     key_strides: Vec<usize>,
     /// Group keys in order of first insertion (for output)
     key_order: Vec<GroupKey>,
+    /// Occupancy of the perfect-hash slots. `key_order` cannot say whether a
+    /// slot is in use: a free slot and a group whose key is NULL in every
+    /// column both read as all-NULL, so such a group used to be dropped on
+    /// rehash, and on output whenever its aggregates had no non-NULL input.
+    perfect_used: Vec<bool>,
     /// Total number of slots in perfect_accs
     perfect_capacity: usize,
     /// Whether we overflowed and fell back to HashMap
@@ -1507,6 +1512,7 @@ impl Default for AggregationState {
             key_maps: Vec::new(),
             key_strides: Vec::new(),
             key_order: Vec::new(),
+            perfect_used: Vec::new(),
             perfect_capacity: 0,
             overflowed: false,
             groups: HashMap::new(),
@@ -1625,16 +1631,18 @@ impl AggregationState {
                         values: vec![ScalarValue::Null; n],
                     })
                     .collect();
+                let mut new_used: Vec<bool> = vec![false; cap];
 
                 for old_idx in 0..old_capacity.min(self.perfect_accs.len()) {
                     if old_idx >= self.key_order.len() {
                         continue;
                     }
                     // Check if this slot has data
-                    let has_data = !self.key_order[old_idx]
-                        .values
-                        .iter()
-                        .all(|v| matches!(v, ScalarValue::Null));
+                    let has_data = self.perfect_used.get(old_idx).copied().unwrap_or(false)
+                        || !self.key_order[old_idx]
+                            .values
+                            .iter()
+                            .all(|v| matches!(v, ScalarValue::Null));
                     if !has_data {
                         continue;
                     }
@@ -1657,6 +1665,10 @@ impl AggregationState {
 
                     // Move accumulators and key_order to new position
                     std::mem::swap(&mut new_accs[new_idx], &mut self.perfect_accs[old_idx]);
+                    if new_used.len() <= new_idx {
+                        new_used.resize(new_idx + 1, false);
+                    }
+                    new_used[new_idx] = true;
                     new_key_order[new_idx] = std::mem::replace(
                         &mut self.key_order[old_idx],
                         GroupKey {
@@ -1667,6 +1679,7 @@ impl AggregationState {
 
                 self.perfect_accs = new_accs;
                 self.key_order = new_key_order;
+                self.perfect_used = new_used;
             } else {
                 // No rehash needed — just extend arrays
                 while self.perfect_accs.len() < cap {
@@ -1707,6 +1720,7 @@ impl AggregationState {
                 }
             }
         }
+        self.mark_slot_used(flat_idx);
 
         Some(flat_idx)
     }
@@ -2199,6 +2213,25 @@ impl AggregationState {
         }
     }
 
+    #[inline]
+    fn mark_slot_used(&mut self, idx: usize) {
+        if self.perfect_used.len() <= idx {
+            self.perfect_used.resize(idx + 1, false);
+        }
+        self.perfect_used[idx] = true;
+    }
+
+    /// Is perfect-hash slot `idx` a real group? Recorded occupancy first (the
+    /// only evidence for a group whose key is NULL in every column and whose
+    /// aggregates saw no non-NULL input); the key/accumulator probe remains
+    /// for slots filled by paths that do not record it.
+    fn slot_in_use(&self, idx: usize) -> bool {
+        self.perfect_used.get(idx).copied().unwrap_or(false)
+            || (idx < self.key_order.len()
+                && idx < self.perfect_accs.len()
+                && Self::slot_has_data(&self.key_order[idx], &self.perfect_accs[idx]))
+    }
+
     /// Check if a perfect hash slot has data.
     /// For GROUP BY without aggregates (DISTINCT-like), check key_order instead.
     fn slot_has_data(key: &GroupKey, accs: &[AccumulatorState]) -> bool {
@@ -2243,10 +2276,11 @@ impl AggregationState {
 
     /// Drain perfect hash accumulators into the HashMap fallback
     fn drain_perfect_to_hashmap(&mut self) {
+        let used = std::mem::take(&mut self.perfect_used);
         for (idx, accs) in self.perfect_accs.drain(..).enumerate() {
             if idx < self.key_order.len() {
                 let key = &self.key_order[idx];
-                if Self::slot_has_data(key, &accs) {
+                if used.get(idx).copied().unwrap_or(false) || Self::slot_has_data(key, &accs) {
                     self.groups.insert(key.clone(), accs);
                 }
             }
@@ -2260,9 +2294,7 @@ impl AggregationState {
             self.perfect_accs
                 .iter()
                 .enumerate()
-                .filter(|(idx, accs)| {
-                    *idx < self.key_order.len() && Self::slot_has_data(&self.key_order[*idx], accs)
-                })
+                .filter(|(idx, _accs)| *idx < self.key_order.len() && self.slot_in_use(*idx))
                 .count()
         } else {
             0
@@ -2470,7 +2502,7 @@ impl AggregationState {
                 if idx >= other.key_order.len() {
                     continue;
                 }
-                if !Self::slot_has_data(&other.key_order[idx], other_accs) {
+                if !other.slot_in_use(idx) {
                     continue;
                 }
 
@@ -2497,6 +2529,7 @@ impl AggregationState {
                             });
                         }
                         self.key_order[our_idx] = key.clone();
+                        self.mark_slot_used(our_idx);
 
                         for (acc, other_acc) in
                             self.perfect_accs[our_idx].iter_mut().zip(other_accs.iter())
@@ -2559,6 +2592,7 @@ impl AggregationState {
                         });
                     }
                     self.key_order[our_idx] = key.clone();
+                    self.mark_slot_used(our_idx);
                     for (acc, other_acc) in
                         self.perfect_accs[our_idx].iter_mut().zip(other_accs.iter())
                     {
@@ -2695,15 +2729,17 @@ impl AggregationState {
                         values: vec![ScalarValue::Null; n],
                     })
                     .collect();
+                let mut new_used: Vec<bool> = vec![false; cap];
 
                 for old_idx in 0..old_capacity.min(self.perfect_accs.len()) {
                     if old_idx >= self.key_order.len() {
                         continue;
                     }
-                    let has_data = !self.key_order[old_idx]
-                        .values
-                        .iter()
-                        .all(|v| matches!(v, ScalarValue::Null));
+                    let has_data = self.perfect_used.get(old_idx).copied().unwrap_or(false)
+                        || !self.key_order[old_idx]
+                            .values
+                            .iter()
+                            .all(|v| matches!(v, ScalarValue::Null));
                     if !has_data {
                         continue;
                     }
@@ -2724,6 +2760,10 @@ impl AggregationState {
                     }
 
                     std::mem::swap(&mut new_accs[new_idx], &mut self.perfect_accs[old_idx]);
+                    if new_used.len() <= new_idx {
+                        new_used.resize(new_idx + 1, false);
+                    }
+                    new_used[new_idx] = true;
                     new_key_order[new_idx] = std::mem::replace(
                         &mut self.key_order[old_idx],
                         GroupKey {
@@ -2734,6 +2774,7 @@ impl AggregationState {
 
                 self.perfect_accs = new_accs;
                 self.key_order = new_key_order;
+                self.perfect_used = new_used;
             } else {
                 while self.perfect_accs.len() < cap {
                     self.perfect_accs.push(
@@ -2797,7 +2838,7 @@ impl AggregationState {
                 if idx >= self.key_order.len() {
                     continue;
                 }
-                if Self::slot_has_data(&self.key_order[idx], accs) {
+                if self.slot_in_use(idx) {
                     all_groups.push((&self.key_order[idx], accs));
                 }
             }
